@@ -283,7 +283,9 @@ func addLineText(p *lineParser) {
 
 	switch k := p.ContainerKind(); {
 	case blockRules[k].acceptsLines:
-		if p.i < len(p.line) && p.line[p.i] == '\t' && p.tabRemaining > 0 && p.tabRemaining < tabStopSize {
+		// Only a partially consumed tab is converted to spaces:
+		// a whole tab is literal content, even if it does not start on a tab stop.
+		if p.i < len(p.line) && p.line[p.i] == '\t' && p.tabPartial && p.tabRemaining > 0 {
 			p.container.inlineChildren = append(p.container.inlineChildren, &Inline{
 				kind:   IndentKind,
 				indent: int(p.tabRemaining),
